@@ -216,6 +216,12 @@ class PiecewiseEstimator(BaseEstimator):
         * `dim_`: dimension of the output
         * `mean_`: average targets
         """
+        if isinstance(y, (pandas.Series, pandas.DataFrame)):
+            # rows are selected by position: the index of a series
+            # does not have to be 0..n-1
+            y = y.values
+        if isinstance(sample_weight, pandas.Series):
+            sample_weight = sample_weight.values
         if len(y.shape) == 2:
             if y.shape[-1] == 1:
                 y = y.ravel()
